@@ -5,7 +5,7 @@ from lib import gz, gtext, glist, gbool, gopt, gpair
 
 THEOREMS_RE = ['C08_re_scan_date', 'C08_re_scan_time', 'C08_re_scan_offset', 'C08_re_scan_date_inbase',
                'C08_re_scan_time_inbase', 'C08_re_scan_date_tz', 'C08_re_datetime_reader', 'C08_re_date_reader',
-               'C08_re_time_reader', 'C08_re_datetime_pattern_composed', 'C08_re_fuel_sufficient',
+               'C08_re_time_reader', 'C08_re_duration_reader', 'C08_re_datetime_pattern_composed', 'C08_re_fuel_sufficient',
                'C08_re_match_splits', 'C08_re_norm_sound']
 
 
